@@ -175,14 +175,29 @@ func runC12(c *Ctx) {
 					if spec.typ == "Socket" {
 						// the reusable sockaddr: both Addr and Port fields are stored from the argument before the call
 						nStores := 0
-						eachInstr(fn, func(in ssa.Instruction) {
-							st, ok := in.(*ssa.Store)
-							if ok && dominatesInstr(st, call.(ssa.Instruction)) && dependsOnLoose(st.Val, addrPrm) {
-								if fv, _ := fieldAddrOf(st.Addr); fv != nil && (fv.Name() == "Addr" || fv.Name() == "Port") {
-									nStores++
+						if sat, ok := strip(args[3]).Type().(*types.Pointer); ok {
+							if stt, ok := sat.Elem().Underlying().(*types.Struct); ok {
+								for i := 0; i < stt.NumFields(); i++ {
+									fld := stt.Field(i)
+									if fld.Name() != "Addr" && fld.Name() != "Port" {
+										continue
+									}
+									for _, d := range deepStoresTo(fn, fld) {
+										val := d.Store.Val
+										// inside a helper the value depends on the helper's parameter bound to the address argument
+										dep := dependsOnLoose(val, addrPrm)
+										for hp, arg := range d.subst {
+											if dependsOnLoose(val, hp) && dependsOnLoose(arg, addrPrm) {
+												dep = true
+											}
+										}
+										if dep && dominatesInstr(d.Site, call.(ssa.Instruction)) {
+											nStores++
+										}
+									}
 								}
 							}
-						})
+						}
 						destOK = nStores == 2
 					}
 				}
@@ -236,7 +251,12 @@ func runC12(c *Ctx) {
 		for _, name := range []string{"SetAsyncReadBuffer", "AsyncRead"} {
 			fn := p.Method("multicast", "UDPPeer", name)
 			ok := false
-			for _, a := range storesTo(fn, bF) {
+			for _, d := range deepStoresTo(fn, bF) {
+				a := fieldAccess{Instr: d.Site, Val: d.translate(d.Store.Val)}
+				a.Addr, _ = d.Store.Addr.(*ssa.FieldAddr)
+				if a.Addr == nil {
+					continue
+				}
 				if stripConv(resolveCell(a.Val)) == ssa.Value(fn.Params[1]) {
 					// through p.read (not p.write)
 					if fa, isFA := a.Addr.X.(*ssa.UnOp); isFA {
@@ -270,7 +290,7 @@ func runC12(c *Ctx) {
 			fn := p.Method("multicast", "UDPPeer", sp.setter)
 			f := p.Field("multicast", "UDPPeer", sp.field)
 			n := 0
-			for _, a := range storesTo(fn, f) {
+			for _, a := range storesDeep(fn, f) {
 				n++
 				good := false
 				for _, kc := range callsToFn(fn, sp.call) {
@@ -728,7 +748,7 @@ func dependsOnLoose(v, src ssa.Value) bool {
 		if f := loadedField(v); f != nil {
 			if vi, ok := v.(ssa.Instruction); ok && vi.Parent() != nil {
 				hit := false
-				for _, a := range storesTo(vi.Parent(), f) {
+				for _, a := range storesDeep(vi.Parent(), f) {
 					if rec(a.Val, d+1) {
 						hit = true
 					}
